@@ -470,6 +470,43 @@ def inspect_lambda_condition(
 
 
 # fmt: off
+def _collect_mangled_names(condition: Callable[..., Any]) -> Mapping[str, str]:
+    """
+    Map the private names as written in the source code of the condition to the names mangled by the compiler.
+
+    A private name (``__some_name``) written in a class body (*e.g.*, ``lambda self: self.__items`` in a decorator
+    of a method) is compiled to ``_SomeClass__some_name``. The abstract syntax tree of the condition carries the name
+    as it was written, so we have to look up the mangled name in the code object.
+    """
+    mangled = dict()  # type: Dict[str, str]
+
+    code = getattr(condition, "__code__", None)
+    if code is None:
+        return mangled
+
+    stack = [code]
+    while stack:
+        a_code = stack.pop()
+        for const in a_code.co_consts:
+            if inspect.iscode(const):
+                stack.append(const)
+
+        for name in a_code.co_names + a_code.co_varnames + a_code.co_freevars + a_code.co_cellvars:
+            if not name.startswith("_") or name.startswith("__"):
+                continue
+
+            # The class name is stripped of its leading underscores and must not be empty.
+            start = name.find("__", 2)
+            while start != -1:
+                private = name[start:]
+                if not private.endswith("__") and private not in mangled:
+                    mangled[private] = name
+
+                start = name.find("__", start + 1)
+
+    return mangled
+
+
 def collect_variable_lookup(
         condition: Callable[..., Any],
         resolved_kwargs: Optional[Mapping[str, Any]] = None
@@ -604,7 +641,8 @@ def repr_values(condition: Callable[..., bool], lambda_inspection: Optional[Cond
     if lambda_inspection is not None:
         variable_lookup = collect_variable_lookup(condition=condition, resolved_kwargs=selected_kwargs)
 
-        recompute_visitor = icontract._recompute.Visitor(variable_lookup=variable_lookup)
+        recompute_visitor = icontract._recompute.Visitor(
+            variable_lookup=variable_lookup, mangled_names=_collect_mangled_names(condition=condition))
 
         recompute_visitor.visit(node=lambda_inspection.node.body)
         recomputed_values = recompute_visitor.recomputed_values
